@@ -68,6 +68,10 @@ def rules(chk, db):
     for rec in ('nop::BufferReader', 'nop::PedanticBufferReader'):
         rwrules.check_buffer_class(chk, db, rec, {'T': 'T', 'G': None, 'E': None, 'C': None}, guard_required=False)
     c16.rules(chk, db, prefix='BR.', only={'nop::BoundedReader'})
+    # ... and the stream reader reports exhaustion instead of delivering bytes that are not in the source
+    chk.rule('ST', 'stream reader primitives move exactly the requested bytes and report the stream state', minimum=3)
+    chk.rule('SS', 'stream reader status mapping', minimum=1)
+    rwrules.check_stream_class(chk, db, 'nop::StreamReader', 'reader', 'ST', 'SS')
 
 
 def run(chk, db):
